@@ -109,6 +109,18 @@ theorem sum_map_mul_right_nat (c : Nat) (f : Nat → Nat) (L : List Nat) :
   | nil => simp
   | cons x t ih => simp only [List.map_cons, List.sum_cons, ih, Nat.add_mul]
 
+theorem sum_map_mul_left_nat (c : Nat) (f : Nat → Nat) (L : List Nat) :
+    (L.map fun x => c * f x).sum = c * (L.map f).sum := by
+  induction L with
+  | nil => simp
+  | cons x t ih => simp only [List.map_cons, List.sum_cons, ih, Nat.mul_add]
+
+theorem cast_sum_map_nat_int (f : Nat → Nat) (L : List Nat) :
+    (((L.map f).sum : Nat) : Int) = (L.map fun x => ((f x : Nat) : Int)).sum := by
+  induction L with
+  | nil => simp
+  | cons x t ih => simp only [List.map_cons, List.sum_cons, Nat.cast_add, ih]
+
 /-- Nat version of `double_sum_symm` -/
 theorem double_sum_symm_nat (g : Nat → Nat → Nat) (hs : ∀ a b, g a b = g b a) (L : List Nat) :
     (L.map fun a => (L.map fun b => g a b).sum).sum
@@ -127,5 +139,19 @@ theorem double_sum_symm_nat (g : Nat → Nat → Nat) (hs : ∀ a b, g a b = g b
       exact hs x a
     rw [h1, ih, h2]
     omega
+
+/-- the sum over unordered pairs of a symmetric function does not depend on the list order -/
+theorem pairSum_perm (f : Nat → Nat → Nat) (hs : ∀ a b, f a b = f b a) {L L' : List Nat}
+    (h : L.Perm L') : pairSum f L = pairSum f L' := by
+  induction h with
+  | nil => rfl
+  | cons x hp ih =>
+    simp only [pairSum]
+    rw [ih, (hp.map fun y => f y x).sum_eq]
+  | swap x y l =>
+    simp only [pairSum, List.map_cons, List.sum_cons]
+    rw [hs x y]
+    omega
+  | trans _ _ ih1 ih2 => exact ih1.trans ih2
 
 end Pyunicorn.Cross
